@@ -7,7 +7,7 @@ import os
 HERE = os.path.dirname(os.path.dirname(os.path.abspath(__file__)))
 
 TEXT = {
-    "C01": ("exploration", "3/C01", "reference evaluator + probe log over generated models, query orders and call spellings",
+    "C01": ("exploration", "3/C01", "reference evaluator + probe log over generated models, query orders and call spellings; binding grid (every signature of 1-4 parameters x every spelling) against plain-Python binding",
             "Generated models are evaluated in random query orders and with every call spelling; each value is compared with an independent uncached evaluation of the same formula source with names resolved by a reference model, and a probe called from every formula shows that no held element is executed again. Held on the generated models/orders only.",
             "Trusts the reference evaluator (mxv/refmodel) and the probe references injected into the model; bounded argument domain and formula grammar."),
     "C02": ("exploration", "3/C02", "fresh-replay differential over (edit kind x dependency-path kind) histories",
@@ -25,13 +25,13 @@ TEXT = {
     "C06": ("exploration", "3/C06", "ground-truth dependency closure + probe log over value-edit histories, both recalc settings",
             "Random DAG models and value-edit histories; after each edit the held set must equal held-before minus the ground-truth dependents, kept elements must not execute again, inputs must persist; recalc-on state is compared with a lazy twin.",
             "Ground truth comes from the generator's call structure and the probe log, never from the library's graph."),
-    "C07": ("exploration", "3/C07", "reference evaluation in instance namespaces, identity checks, fresh replay after base edits, handle registry",
+    "C07": ("exploration", "3/C07", "reference evaluation in instance namespaces, identity checks, fresh replay after base edits, handle registry; binding grid for space parameters",
             "Parametrised spaces with defaults, nesting, returned refs/bases: values vs reference evaluation, instance identity under all spellings, isolation, freshness after every base edit kind, behaviour of old handles.",
             "ItemSpaces identified by parent path and argument values."),
     "C08": ("exploration", "3/C08", "ground-truth callees from probe nesting vs preds/succs/precedents/tracegraph after every op",
             "After every operation of evaluation/edit/failure histories, preds, succs, precedents and graph nodes of every held element are compared with the calls the probe observed.",
             "precedents is compared as a superset for by-name references."),
-    "C09": ("exploration", "3/C09", "differential over all 2^n cached-flag assignments of the same model and history",
+    "C09": ("exploration", "3/C09", "differential over all 2^n cached-flag assignments of the same model and history; flag given in @defcells redefinitions (old x new flag x formula changed x evaluated)",
             "Same spec and history under every assignment of the cached flag (exhaustive for small n), flag toggles mid-history, unhashable arguments; values and error kinds must agree, uncached cells hold nothing and execute on every call.",
             "Baseline is the all-cached run (tied to the reference evaluator by C01/C02)."),
     "C10": ("exploration", "3/C10", "exhaustive mode x target x depth x deriver grid against the stated binding rule, then histories",
